@@ -7,8 +7,11 @@ import (
 	"fmt"
 	"net/http"
 	"net/http/httptest"
+	"reflect"
+	"strings"
 	"sync"
 	"sync/atomic"
+	"time"
 
 	connect "github.com/bufbuild/connect-go"
 	"github.com/bufbuild/connect-go/verifharness/internal/h"
@@ -162,11 +165,24 @@ func C13(r *h.Run) {
 	defer connect.VerifSetPoolHooks(nil)
 
 	// one handler set, shared by everything
+	sentinel := connect.NewError(connect.CodeNotFound, errors.New("shared sentinel"))
+	sentinelMetaIsNil := func() bool {
+		f := reflect.ValueOf(sentinel).Elem().FieldByName("meta")
+		return !f.IsValid() || f.IsNil()
+	}
 	mux := http.NewServeMux()
 	hopts := []connect.HandlerOption{connect.WithCodec(h.ToyCodec{Poison: true}), h.WithTag("tagA"), connect.WithCompressMinBytes(8)}
 	mux.Handle("/verif.Svc/Unary", connect.NewUnaryHandler("/verif.Svc/Unary", func(_ context.Context, req *connect.Request[h.Raw]) (*connect.Response[h.Raw], error) {
 		res := connect.NewResponse(&h.Raw{B: append([]byte("u:"), req.Msg.B...)})
 		res.Header().Set("X-Echo", h.Hex(req.Msg.B[:minInt(len(req.Msg.B), 16)]))
+		if len(req.Msg.B) > 0 && req.Msg.B[0] == 'N' {
+			// one error VALUE returned by every such call (a package-level sentinel): the library
+			// may read it from many calls at once, it must not write to it
+			if len(req.Msg.B)%2 == 0 {
+				return nil, fmt.Errorf("lookup: %w", sentinel)
+			}
+			return nil, sentinel
+		}
 		if len(req.Msg.B) > 0 && req.Msg.B[0] == 'E' {
 			return nil, connect.NewError(connect.CodeAborted, fmt.Errorf("err:%s", h.Hex(req.Msg.B[:minInt(len(req.Msg.B), 16)])))
 		}
@@ -239,6 +255,9 @@ func C13(r *h.Run) {
 		return b
 	}
 	sizes := []int{3, 9, 40, 511, 512, 513, 5000}
+	workload := map[string]any{"goroutines": G, "calls_per_goroutine": K, "client_sets": len(sets), "server": "one HTTP/2 TLS server, four handlers shared by all calls",
+		"calls": "unary (success, per-call error, one shared sentinel error value), client stream, server stream, bidi stream sent on and received from concurrently, every third bidi stream cancelled in mid-flight"}
+	r.Attempt(h.Failure{Key: "concurrency/library-panic", Family: "concurrent_calls", What: "the process died during the concurrent workload (a panic on one of the library's own goroutines cannot be recovered by the caller)", Input: workload})
 	var wg sync.WaitGroup
 	for g := 0; g < G; g++ {
 		wg.Add(1)
@@ -250,7 +269,14 @@ func C13(r *h.Run) {
 				size := sizes[lr.Intn(len(sizes))]
 				in := map[string]any{"goroutine": g, "call": k, "client": cs.name, "size": size}
 				calls.Add(1)
-				switch lr.Intn(5) {
+				switch lr.Intn(6) {
+				case 5:
+					p := payload(g, k, size, 'N') // handler answers with the shared sentinel error
+					_, err := cs.unary.CallUnary(context.Background(), connect.NewRequest(&h.Raw{B: p}))
+					var ce *connect.Error
+					if err == nil || !errors.As(err, &ce) || ce.Code() != connect.CodeNotFound || !strings.Contains(ce.Message(), "shared sentinel") {
+						fail("unary error: the handler's shared sentinel error did not arrive", in)
+					}
 				case 0:
 					p := payload(g, k, size, 'P')
 					res, err := cs.unary.CallUnary(context.Background(), connect.NewRequest(&h.Raw{B: p}))
@@ -344,6 +370,10 @@ func C13(r *h.Run) {
 		}(g)
 	}
 	wg.Wait()
+	r.Survived()
+	if !sentinelMetaIsNil() {
+		r.Fail(h.Failure{Key: "concurrency/shared-error-written", Family: "concurrent_calls", What: "the library wrote to an error value the handler returns from many concurrent calls (its metadata field went from nil to a map): an unsynchronised write to memory shared between calls", Input: workload})
+	}
 	r.Sum.Evaluations += int(calls.Load())
 	r.Sum.Distribution["concurrent_calls"] = int(calls.Load())
 	// handlers may still be finishing on the servers' goroutines: read the counters under the trace's lock
@@ -362,6 +392,46 @@ func C13(r *h.Run) {
 		}
 	}
 	tr.mu.Unlock()
+	// ---------- (2b) the two sides of ONE call ending it at the same instant: the transport
+	// fails the request (the library's request goroutine records the error and closes the
+	// request pipe) while the caller closes the request side. A library goroutine that panics
+	// here takes the process down; nothing the caller does can recover it ----------
+	{
+		failing := roundTripFunc(func(req *http.Request) (*http.Response, error) {
+			if req.Body != nil {
+				_ = req.Body.Close()
+			}
+			return nil, errors.New("connection refused")
+		})
+		cl := connect.NewClient[h.Raw, h.Raw](failing, "http://verif.local/verif.Svc/Bidi", connect.WithCodec(h.ToyCodec{}))
+		dur := time.Duration(r.N(1200, 12000)) * time.Millisecond
+		stress := map[string]any{"goroutines": 16, "duration_ms": dur.Milliseconds(), "transport": "Do closes the request body and fails",
+			"each_call": "CallBidiStream; Send; CloseRequest; Receive; CloseResponse — the caller's CloseRequest and the request goroutine's failure meet"}
+		r.Attempt(h.Failure{Key: "concurrency/library-panic", Family: "close_vs_failure", What: "the process died while calls were being ended from both sides at once (a panic on one of the library's own goroutines cannot be recovered by the caller)", Input: stress})
+		var n atomic.Int64
+		deadline := time.Now().Add(dur)
+		var wg2 sync.WaitGroup
+		for g := 0; g < 16; g++ {
+			wg2.Add(1)
+			go func() {
+				defer wg2.Done()
+				for time.Now().Before(deadline) {
+					st := cl.CallBidiStream(context.Background())
+					_ = st.Send(&h.Raw{B: []byte("x")})
+					_ = st.CloseRequest()
+					_, _ = st.Receive()
+					_ = st.CloseResponse()
+					n.Add(1)
+				}
+			}()
+		}
+		wg2.Wait()
+		r.Survived()
+		r.Sum.Evaluations += int(n.Load())
+		r.Sum.Distribution["close_vs_failure"] = int(n.Load())
+		r.Sample("close_vs_failure", map[string]any{"in": stress, "calls_completed": n.Load()})
+	}
+
 	// ---------- (3) pooled decompressors: after messages that end in each early-exit
 	// branch of Decompress (corrupt stream; decompressed size beyond the read limit),
 	// concurrent calls must never be handed the same decompressor ----------
